@@ -298,6 +298,54 @@ def r11_2(ctx, counts) -> RuleResult:
                                  f'`{stmt_text(parents.get(id(p), p))[:80]}`: the microsecond '
                                  f'count is converted without the factor 10^6 ({how}); '
                                  f'12 s + 5000 µs becomes 12.5 instead of 12.005'))
+    # the reverse direction: a value passed as `microseconds` that is computed by scaling
+    seen_scaled: set[int] = set()
+    for f in sorted(model.all_functions(), key=lambda q: q.key):
+        for c in walk_local(f.node):
+            if not (isinstance(c, ast.Call) and dotted(c.func).split('.')[-1] == 'timedelta'):
+                continue
+            arg = None
+            for k in c.keywords:
+                if k.arg == 'microseconds':
+                    arg = k.value
+            if arg is None and len(c.args) >= 3:
+                arg = c.args[2]
+            if arg is None:
+                continue
+            exprs = [arg]
+            if isinstance(arg, ast.Name):
+                exprs = []
+                for n in walk_local(f.node):
+                    if isinstance(n, ast.Assign):
+                        t = n.targets[0]
+                        if isinstance(t, ast.Name) and t.id == arg.id:
+                            exprs.append(n.value)
+                        elif isinstance(t, ast.Tuple) and isinstance(n.value, ast.Tuple) and \
+                                len(t.elts) == len(n.value.elts):
+                            for tt, vv in zip(t.elts, n.value.elts):
+                                if isinstance(tt, ast.Name) and tt.id == arg.id:
+                                    exprs.append(vv)
+            for e in exprs:
+                for x in ast.walk(e):
+                    if isinstance(x, ast.BinOp) and isinstance(x.op, ast.Mult):
+                        for side in (x.left, x.right):
+                            v = _is_million(model, f.module, side)
+                            if v is not None and v >= 10 and id(x) not in seen_scaled:
+                                seen_scaled.add(id(x))
+                                sites += 1
+                                ok = v == 1e6
+                                res.instances.append(
+                                    f'{f.key}: timedelta microseconds from `{stmt_text(x)[:40]}` '
+                                    f'-> {"scaled by 10^6" if ok else "NOT scaled by 10^6"}')
+                                if ok:
+                                    res.ok()
+                                else:
+                                    res.fail(finding(
+                                        'R11.2', f, x, f'microseconds scaled by {v:g}',
+                                        f'`{stmt_text(x)[:60]}` is passed to timedelta as '
+                                        f'microseconds but scales the seconds fraction by {v:g} '
+                                        f'instead of 1000000: durations that differ below a '
+                                        f'millisecond compare wrongly'))
     counts['microsecond_conversions'] = sites
     if sites < 5:
         raise AnalysisError(f'only {sites} microsecond conversions located')
